@@ -200,6 +200,24 @@ claim("C13", "exploration",
       "DESIGN.md 4 C13")
 
 
+claim("C15", "exploration",
+      "Generated hierarchies (depth <= 3, component lists) whose child classes come in families with one external "
+      "interface and different insides (update blocks, flip-flops, constants connected inside, explicit U / RD / WR "
+      "constraints, nested children, lists), plus hand-written interface and CL families (interfaces, update_once "
+      "blocks, non-blocking methods, M constraints), are mutated by histories of 1..6 replace_component / "
+      "replace_component_with_obj operations on fields and list elements at depth 1..2 incl. re-replacement. After "
+      "EVERY operation the mutated design is compared with a twin built from scratch from a rewritten spec: component, "
+      "signal and named-object name sets with kinds, nets with writers, adjacency, update blocks with read / write / "
+      "call sets, all four explicit-constraint tables, update_ff / update_once sets (all keyed by names); the C14 name "
+      "invariant holds; a walker over everything reachable from top finds no <deleted> object; finally both designs "
+      "are simulated to identical traces.",
+      "Dead slice/field objects that take part in no connection and no block's read/write set (by-products of "
+      "evaluating s.x[3:19][1:7]) are left out of the signal-set comparison. Eight genuine defects found by this "
+      "check were repaired by fix: commits (known_findings.json, 'fixed').",
+      "deterministic simulation of an operation history, refinement against a from-scratch reference build",
+      "DESIGN.md 4 C15")
+
+
 def main():
   props = [json.loads(l)["id"] for l in open(os.path.join(VERIF, "properties.jsonl"))]
   checks = []
